@@ -17,12 +17,12 @@ import (
 // JSON trees (ordered; object keys distinct)
 
 type JNode struct {
-	K    string  `json:"k"` // obj | arr | str | num | bool | null
+	K    string   `json:"k"` // obj | arr | str | num | bool | null
 	Keys []string `json:"keys,omitempty"`
-	Kids []JNode `json:"kids,omitempty"`
-	S    string  `json:"s,omitempty"`   // str: the decoded string (valid UTF-8)
-	Num  string  `json:"num,omitempty"` // num: the literal
-	B    bool    `json:"b,omitempty"`
+	Kids []JNode  `json:"kids,omitempty"`
+	S    string   `json:"s,omitempty"`   // str: the decoded string (valid UTF-8)
+	Num  string   `json:"num,omitempty"` // num: the literal
+	B    bool     `json:"b,omitempty"`
 }
 
 var jsonKeys = []string{"a", "b", "c", "id", "name", "zz", "A", "", "a.b", "0", "1", "a b", "é", "q\"uote", "back\\slash", "x*y", "p?q", "h#", "at@", "pi|pe", "new\nline", "tab\t", "<tag>", "日本", "k10", "k9", "_", "-"}
